@@ -112,20 +112,31 @@ func opLex(f []string) string {
 	l := syntax.NewLexer(src)
 	var sb strings.Builder
 	n := 0
+	// the tokens are kept (not copied) and printed only after the whole text has been lexed, the way the parser
+	// holds a token while it reads ahead: a literal that aliases a buffer reused by a later token shows up here
+	var held []syntax.Token
+	flush := func() {
+		for _, tk := range held {
+			fmt.Fprintf(&sb, " %d:%d:%d:%s", tk.Type, tk.StartIdx, tk.EndIdx, cpField(tk.Literal))
+		}
+	}
 	for {
 		tk, err := zh.NextToken(l)
 		if err != nil {
+			flush()
 			return "ok" + sb.String() + " " + errField(err)
 		}
-		fmt.Fprintf(&sb, " %d:%d:%d:%s", tk.Type, tk.StartIdx, tk.EndIdx, cpField(tk.Literal))
+		held = append(held, tk)
 		if tk.Type == zh.TypeEOF {
 			break
 		}
 		n++
 		if n > 4*len(src)+16 {
+			flush()
 			return "ok" + sb.String() + " nonterminating"
 		}
 	}
+	flush()
 	// the Lines table
 	sb.WriteString(" |")
 	for _, ln := range l.Lines {
